@@ -1,0 +1,108 @@
+//go:build verif
+// +build verif
+
+// Package verifhook provides failpoints and scheduler gates for the model-based checks in /verif.
+// This is the instrumented variant (build tag "verif").
+//
+// Durable(site,key) is called immediately BEFORE a durable write (LevelDB put/delete/batch write,
+// WAL/autofile write, the steps of WriteFileAtomic).  A test installs DurableFn in-process, or a
+// subprocess is steered through the environment:
+//
+//	VERIF_CRASH_AT=k     exit(137) before the k-th durable write counted after the marker
+//	VERIF_CRASH_SITE=re  ... counting only writes whose "site:key" contains the substring
+//	VERIF_CRASH_MARK=f   start counting only once file f exists
+//	VERIF_DURABLE_LOG=f  append one line "n site hexkey" per durable write to f
+//
+// Gate(site) is a scheduling point: a test installs GateFn to block/order goroutines.
+package verifhook
+
+import (
+	"encoding/hex"
+	"fmt"
+	"os"
+	"strconv"
+	"strings"
+	"sync"
+)
+
+var (
+	mtx sync.Mutex
+	// DurableFn, if set, is consulted first; returning a non-nil error makes DurableErr sites fail.
+	DurableFn func(site string, key []byte) error
+	// GateFn, if set, is called at every Gate site.
+	GateFn func(site string)
+
+	crashAt   int
+	crashSite string
+	crashMark string
+	logPath   string
+	logFile   *os.File
+	count     int
+	total     int
+)
+
+func init() {
+	if s := os.Getenv("VERIF_CRASH_AT"); s != "" {
+		crashAt, _ = strconv.Atoi(s)
+	}
+	crashSite = os.Getenv("VERIF_CRASH_SITE")
+	crashMark = os.Getenv("VERIF_CRASH_MARK")
+	logPath = os.Getenv("VERIF_DURABLE_LOG")
+}
+
+func hit(site string, key []byte) error {
+	mtx.Lock()
+	fn := DurableFn
+	total++
+	if logPath != "" {
+		if logFile == nil {
+			logFile, _ = os.OpenFile(logPath, os.O_APPEND|os.O_CREATE|os.O_WRONLY, 0644)
+		}
+		if logFile != nil {
+			k := key
+			if len(k) > 48 {
+				k = k[:48]
+			}
+			fmt.Fprintf(logFile, "%d %s %s\n", total, site, hex.EncodeToString(k))
+		}
+	}
+	if crashAt > 0 {
+		armed := crashMark == ""
+		if !armed {
+			if _, err := os.Stat(crashMark); err == nil {
+				armed = true
+			}
+		}
+		if armed && (crashSite == "" || strings.Contains(site+":"+string(key), crashSite)) {
+			count++
+			if count == crashAt {
+				if logFile != nil {
+					fmt.Fprintf(logFile, "CRASH before %d %s\n", total, site)
+					logFile.Sync()
+				}
+				os.Exit(137)
+			}
+		}
+	}
+	mtx.Unlock()
+	if fn != nil {
+		return fn(site, key)
+	}
+	return nil
+}
+
+// Durable marks a durable write whose caller cannot report an error.
+func Durable(site string, key []byte) { _ = hit(site, key) }
+
+// DurableErr marks a durable write whose caller returns the error (write-failure injection).
+func DurableErr(site string, key []byte) error { return hit(site, key) }
+
+// Gate is a scheduling point.
+func Gate(site string) {
+	mtx.Lock()
+	fn := GateFn
+	mtx.Unlock()
+	if fn != nil {
+		fn(site)
+	}
+}
